@@ -23,6 +23,9 @@ SITE_TOKENS = ["a", "|", "~", "!", "?"]
 SITES = [("", ""), ("(", ")"), ("PUSH(", ")"), ("a ~ (", ")"), ("((", "))"), ("PUSH((", "))"), ("(PUSH(", "))")]
 
 EXTRA_TEXTS = [
+    # raw (unescaped) line breaks and tabs inside literals: a literal holds exactly the characters between its quotes
+    *[tmpl.format(c) for tmpl in ('r = {{ "a{}b" }}', 'r = {{ ^"a{}b" }}', 'r = {{ PUSH_LITERAL("{}") }}', "r = {{ '{}'..'z' }}", 'r = {{ "{}" }}\ns = {{ "x" }}', '//! d{}e\nr = {{ "x" }}')
+      for c in ("\r\n", "\r", "\n", "\t", "\r\n\r\n", "\n\r", "\x0b", "\u2028", "\x00")],
     # every escape form in every kind of literal (a literal is decoded exactly once)
     *[tmpl.format(e) for tmpl in ('r = {{ "{}" }}', 'r = {{ ^"{}" }}', 'r = {{ PUSH_LITERAL("{}") }}', 'r = {{ "a{}b" }}', 'r = {{ ^"a{}b" }}', 'r = {{ ^"{}{}" }}'.replace("{}{}", "{0}{0}"))
       for e in ("\\\\", "\\x5c", "\\u{5C}", "\\\\n", "\\\\x41", "\\\\u{41}", "\\x5cn", "\\\"", "\\'", "\\0", "\\t", "\\\\\\\\", "\\u{5c}\\u{5c}")],
